@@ -393,10 +393,15 @@ class Reader:
         )
         r.close()
         if not keep_original:
+            was_open = self.is_open
             self.close()
             self.file_bin.unlink()
             self.file_bin.with_suffix(".ch").unlink()
             self.file_bin = kwargs["out"]
+            self.nbytes = Path(self.file_bin).stat().st_size
+            self._raw = None
+            if was_open:
+                self.open()
         return kwargs["out"]
 
     def decompress_to_scratch(self, scratch_dir=None):
